@@ -555,6 +555,13 @@ class Context(interfaces.RequestProvider):
         if handle_blockwise:
             return BlockwiseRequest(self, request_message)
 
+        if request_message.mid is not None:
+            # The object was sent before (a polling application using one
+            # message over and over), and the exchange it was sent in may
+            # still be around: retransmissions take the message from that
+            # very object. Whatever is stamped on it now goes to a copy.
+            request_message = request_message.copy(mid=None, token=b"")
+
         pipe = Pipe(request_message, self.log)
         # Request sets up callbacks at creation
         result = Request(pipe, self.loop, self.log)
